@@ -10,6 +10,8 @@ import (
 	"runtime/debug"
 	"sort"
 	"strconv"
+
+	"golang.org/x/tools/go/ssa"
 )
 
 type propFunc func(c *Ctx, w *World)
@@ -25,6 +27,7 @@ type World struct {
 	all     bool
 	gcp     *Prog
 	gcpLF   *LockFacts
+	gcpSums *Summaries
 	prober  *Prog
 	csum    *Prog
 	overlay map[string][]byte
@@ -46,8 +49,15 @@ func (w *World) GCP() *Prog {
 func (w *World) GCPLocks() *LockFacts {
 	if w.gcpLF == nil && w.GCP() != nil {
 		w.gcpLF = buildLockFacts(w.gcp)
+		w.gcpSums = buildSummaries(w.gcp)
+		equivCtx.p, equivCtx.sums, equivCtx.lf, equivCtx.done = w.gcp, w.gcpSums, w.gcpLF, map[*ssa.Function]bool{}
 	}
 	return w.gcpLF
+}
+
+func (w *World) GCPSums() *Summaries {
+	w.GCPLocks()
+	return w.gcpSums
 }
 
 func (w *World) Prober() *Prog {
